@@ -1223,6 +1223,28 @@ class Explorer:
             except z3.Z3Exception as exc:
                 ctx.res.status = "abort"
                 ctx.res.abort_reason = f"z3: {exc}"
+            except Exception as exc:
+                # the harness could not complete: the code under test raised or returned something the
+                # oracle cannot process.  A changed private interface is inconclusive; anything else is
+                # a counterexample candidate that must reproduce concretely (same exception type).
+                import traceback as _tb
+                tb = _tb.extract_tb(exc.__traceback__)
+                where = f"{tb[-1].filename}:{tb[-1].lineno}" if tb else "?"
+                msg = f"{type(exc).__name__}: {exc}"
+                iface = isinstance(exc, (AttributeError, ImportError, NameError)) or (
+                    isinstance(exc, TypeError) and any(w in str(exc) for w in ("positional argument", "keyword argument",
+                                                                               "required positional", "takes ")))
+                if iface:
+                    ctx.res.status = "abort"
+                    ctx.res.abort_reason = f"interface of the code under test differs from what the harness calls ({msg} at {where})"
+                else:
+                    ctx.res.status = "error"
+                    try:
+                        m = ctx.pc_model()
+                    except BaseException:
+                        m = None
+                    ctx.res.obligations.append(Obligation("no-unexpected-exception", type(exc).__name__, "cex",
+                                                          model=m if isinstance(m, dict) else {}, detail=f"{msg} at {where}"))
             finally:
                 _set_current(None)
             ctx.res.decisions = list(ctx.taken)
